@@ -64,6 +64,8 @@ func (g *GTPv1U) DecodeFromBytes(data []byte, df gopacket.DecodeFeedback) error 
 	}
 	//  Field used to multiplex different connections in the same GTP tunnel.
 	g.TEID = binary.BigEndian.Uint32(data[4:8])
+	g.SequenceNumber, g.NPDU = 0, 0
+	g.GTPExtensionHeaders = g.GTPExtensionHeaders[:0]
 	cIndex := uint16(hLen)
 	if g.SequenceNumberFlag || g.NPDUFlag || g.ExtensionHeaderFlag {
 		hLen += 4
